@@ -529,7 +529,9 @@ func (s *configurationStore) getApplied(ctx context.Context, id configapi.Config
 func (s *configurationStore) store(ctx context.Context, store _map.Map[string, *configapi.PathValue], values map[string]configapi.PathValue) error {
 	prunedValues := tree.PrunePathMap(values, true)
 	transaction := store.Transaction(ctx)
-	for _, pv := range values {
+	for _, value := range values {
+		// The transaction encodes the values when it is committed: each one needs a variable of its own
+		pv := value
 		entry, err := store.Get(ctx, pv.Path)
 		if err != nil {
 			err = errors.FromAtomix(err)
